@@ -40,6 +40,7 @@ type c19 struct {
 	fdFns   []*ssa.Function
 	twCache map[string]*ssa.Store
 	twDone  map[string]bool
+	subst   map[*ssa.Parameter]string // signatures of a helper's parameters while its body is read at a call site
 }
 
 func runC19(r *fw.Run, p *fw.Program) {
@@ -61,6 +62,7 @@ func runC19(r *fw.Run, p *fw.Program) {
 	c.ruleEndpoint()
 	c.ruleDefrag()
 	c.ruleLink()
+	c.ruleEndian()
 	c.ruleFeed()
 	c.ruleSection()
 	c.ruleFlow()
@@ -395,6 +397,9 @@ func (c *c19) sigd(v ssa.Value, d int) string {
 	v = c.origin(v)
 	switch x := v.(type) {
 	case *ssa.Parameter:
+		if s, ok := c.subst[x]; ok {
+			return s
+		}
 		return fmt.Sprintf("param#%d", c19paramIndex(x))
 	case *ssa.Const:
 		if x.Value == nil {
@@ -779,6 +784,32 @@ func (c *c19) ruleDir() {
 	}
 	var clientOK, serverOK int
 	var problems []string
+	classify := func(v ssa.Value, recv ssa.Value, canF, canT bool) {
+		var field string
+		if x, ok := c19loadOfField(v, m.tconn, "Client"); ok && x == recv {
+			field = "Client"
+		} else if x, ok := c19loadOfField(v, m.tconn, "Server"); ok && x == recv {
+			field = "Server"
+		} else {
+			problems = append(problems, "a direction record comes from "+c.sig(v)+", not from the receiver's Client/Server field")
+			return
+		}
+		if canF && canT {
+			problems = append(problems, "t."+field+" is used on a path where the direction has not been tested")
+			return
+		}
+		isClientDir := (canT && m.wantClient) || (canF && !m.wantClient)
+		switch {
+		case isClientDir && field == "Client":
+			clientOK++
+		case !isClientDir && field == "Server":
+			serverOK++
+		case isClientDir:
+			problems = append(problems, "TCPDirClientToServer selects t.Server")
+		default:
+			problems = append(problems, "TCPDirServerToClient selects t.Client")
+		}
+	}
 	for _, base := range m.bases {
 		var use *ssa.BasicBlock
 		if _, isPhi := base.(*ssa.Phi); !isPhi {
@@ -791,30 +822,39 @@ func (c *c19) ruleDir() {
 			if !canF && !canT {
 				continue // infeasible edge (e.g. zero value after an exhaustive switch)
 			}
-			var field string
-			if x, ok := c19loadOfField(lf.v, m.tconn, "Client"); ok && x == ssa.Value(m.recv) {
-				field = "Client"
-			} else if x, ok := c19loadOfField(lf.v, m.tconn, "Server"); ok && x == ssa.Value(m.recv) {
-				field = "Server"
-			} else {
-				problems = append(problems, "a direction record comes from "+c.sig(lf.v)+", not from the receiver's Client/Server field")
-				continue
+			// a selector helper of the package: t.direction(dir) - read its returns in the caller's terms
+			if cl, ok := lf.v.(*ssa.Call); ok && !cl.Common().IsInvoke() {
+				if f := cl.Common().StaticCallee(); f != nil && f.Blocks != nil && pkgRel(f) == c19FD && len(f.Params) == len(cl.Common().Args) && f.Signature.Results().Len() == 1 {
+					m2 := &c19sg{tconn: m.tconn, tdir: m.tdir, wantClient: m.wantClient, wantServer: m.wantServer}
+					for i, a := range cl.Common().Args {
+						switch c.origin(a) {
+						case ssa.Value(m.recv):
+							m2.recv = f.Params[i]
+						case m.dir:
+							m2.dir = f.Params[i]
+						}
+					}
+					if m2.recv != nil {
+						for _, ret := range returnsOf(f) {
+							var use2 *ssa.BasicBlock
+							if _, isPhi := ret.Results[0].(*ssa.Phi); !isPhi {
+								use2 = ret.Block()
+							}
+							for _, l2 := range c19leaves(ret.Results[0], use2) {
+								f2, t2 := true, true
+								if m2.dir != nil {
+									f2, t2 = m2.dirValues(l2.conds)
+								}
+								if (canF && f2) || (canT && t2) {
+									classify(l2.v, m2.recv, canF && f2, canT && t2)
+								}
+							}
+						}
+						continue
+					}
+				}
 			}
-			if canF && canT {
-				problems = append(problems, "t."+field+" is used on a path where the direction has not been tested")
-				continue
-			}
-			isClientDir := (canT && m.wantClient) || (canF && !m.wantClient)
-			switch {
-			case isClientDir && field == "Client":
-				clientOK++
-			case !isClientDir && field == "Server":
-				serverOK++
-			case isClientDir:
-				problems = append(problems, "TCPDirClientToServer selects t.Server")
-			default:
-				problems = append(problems, "TCPDirServerToClient selects t.Client")
-			}
+			classify(lf.v, m.recv, canF, canT)
 		}
 	}
 	sort.Strings(problems)
